@@ -432,6 +432,8 @@ class World:
                             changed = True
 
     def mro(self, qname: str) -> list[str]:
+        if qname == "*":
+            return ["*"]
         if qname in self._mro_cache:
             return self._mro_cache[qname]
         ci = self.get_class(qname)
@@ -460,9 +462,13 @@ class World:
         return res
 
     def is_subclass(self, qname: str, base: str) -> bool:
+        if base == "*":
+            return True
         return base in self.mro(qname)
 
     def subclasses(self, base: str) -> list[str]:
+        if base == "*":
+            return [ci.qname for mi in self.modules.values() for ci in mi.classes.values() if not ci.is_enum]
         out = []
         for mi in self.modules.values():
             for ci in mi.classes.values():
